@@ -36,6 +36,8 @@ type Prog struct {
 	// /repo's working tree with these files replaced; never used for the verdict on /repo itself)
 	Overlay     map[string][]byte
 	overlayJSON string
+
+	fieldPtrWriters map[string]map[*ssa.Function]bool
 }
 
 func infraFail(format string, a ...any) {
